@@ -143,6 +143,11 @@ def generate(seed, tier="quick"):
             segments = [n for n, _ in walk(ahb) if n["t"] == "s"]
             if segments:
                 ahb = {"lines": [rnd.choice(segments)]}
+    for node, _ in walk(ahb):
+        if node["t"] == "f" and rnd.random() < 0.08:
+            node["vt"] = "DATETIME"
+            node["input"] = rnd.choice(["2022-12-31T23:00:00Z", "siehe Anhang", "31.12.2022", None, "",
+                                        "2023-03-26T22:00:00+00:00"])
     if rnd.random() < 0.06:
         # two data elements of one segment that are equal in every attribute, with something else in between
         segments = [n for n, _ in walk(ahb) if n["t"] == "s" and len(n["des"]) >= 2]
@@ -150,9 +155,11 @@ def generate(seed, tier="quick"):
             segment = rnd.choice(segments)
             first = rnd.randrange(len(segment["des"]) - 1)
             segment["des"].insert(rnd.randrange(first + 2, len(segment["des"]) + 1), clone(segment["des"][first]))
-    if rnd.random() < 0.06 and entry == "deep":
+    if rnd.random() < 0.01 and entry == "deep":
+        ahb = {"lines": []}  # nothing to validate: an empty result, not an error
+    if rnd.random() < 0.06 and entry == "deep" and ahb["lines"]:
         ahb = widen(rnd, ahb, pool)
-    elif rnd.random() < 0.04 and entry == "deep":
+    elif rnd.random() < 0.04 and entry == "deep" and ahb["lines"]:
         ahb = deepen(rnd, ahb, pool)
     profile = rnd.choice([p for p in PROFILES if p != "zero"] * 3 + ["zero"])
     request = {"rid": "r0", "cer": cer, "op": {"entry": entry, "ahb": ahb, "soll": rnd.random() < 0.5}}
